@@ -8,6 +8,8 @@
   The host's endianness is *not* part of `Cfg.Good`: every theorem below holds for both.
 -/
 import PsutilModel.Proofs.C11Rows
+import PsutilModel.Proofs.C11Scan
+import PsutilModel.Proofs.C11Count
 import PsutilModel.Model.C11Gen
 set_option linter.unusedSimpArgs false
 namespace Psutil.C11
@@ -387,6 +389,202 @@ theorem C11_no_holder_none (le : Bool) (w : World) (hw : w.WF) (kind : String) (
     simp only [hb, Bool.false_eq_true, if_false] at this
     obtain ⟨o, ho, hr⟩ := this
     simp at ho; subst ho; exact hr
+
+/-! ## Descriptor races and errors (`os.listdir` / `os.readlink` failing) -/
+
+/-- **C11_scan_never_fails.** System-wide form over EVERY world in which the two system calls may
+    fail in the "cannot be inspected" ways — `readlink` of any descriptor with ENOENT, ESRCH (closed /
+    process gone), EINVAL (not a link), ENAMETOOLONG, EACCES, EPERM (process not ours any more);
+    `listdir` of any process with ENOENT, ESRCH, EACCES, EPERM: `psutil.net_connections(kind)` does
+    not fail, and returns the rows promised for the part of the world that can be inspected
+    (`WorldE.view`: a failing descriptor is no holder; an unlistable or denied process holds nothing). -/
+theorem C11_scan_never_fails (le : Bool) (w : WorldE) (hw : w.view.WF) (hi : w.Inspectable)
+    (kind : String) (hk : kind ∈ kinds) :
+    ∃ rows, netConnectionsE (cfgLE le) (renderWorldE le w) kind none = .ok rows
+      ∧ Accepts (expects w.view ⟨kind, none⟩) rows :=
+  scan_system (cfgLE le) (cfgLE_good le) (cfgLE_tmap_good le) w hw hi kind hk
+
+/-- **C11_scan_no_holder.** What `view` keeps: a `(pid, fd)` is a holder only if the process could
+    be listed, none of its descriptors was denied, and this very descriptor was read and is the
+    socket — so a descriptor or process that cannot be inspected contributes no holder. -/
+theorem C11_scan_no_holder (w : WorldE) (i pid fd : Nat) (h : (pid, fd) ∈ holders w.view i) :
+    ∃ fds, (pid, Except.ok fds) ∈ w.procs ∧ deniedIn fds = false ∧ (fd, TargetE.sock i) ∈ fds := by
+  simp only [holders, WorldE.view, List.mem_flatMap, List.mem_map] at h
+  obtain ⟨p, ⟨p0, hp0, rfl⟩, hx⟩ := h
+  obtain ⟨pid0, l⟩ := p0
+  cases l with
+  | error e => simp [viewProc] at hx
+  | ok fds =>
+    cases hd : deniedIn fds with
+    | true => simp [viewProc, hd] at hx
+    | false =>
+      simp only [viewProc, hd, Bool.false_eq_true, if_false, List.mem_filterMap, List.mem_map] at hx
+      obtain ⟨x, ⟨y, hy, rfl⟩, hx2⟩ := hx
+      obtain ⟨fd0, t⟩ := y
+      by_cases hs : t.view = .sock i
+      · simp only [hs, if_true, Option.some.injEq, Prod.mk.injEq] at hx2
+        obtain ⟨rfl, rfl⟩ := hx2
+        refine ⟨fds, hp0, hd, ?_⟩
+        cases t with
+        | sock j => simp only [TargetE.view, Target.sock.injEq] at hs; subst hs; exact hy
+        | other b => cases hs
+        | fail e => cases hs
+      · simp [hs] at hx2
+
+/-- **C11_scan_process.** Per-process form: the process' own descriptors can be listed and fail, if
+    at all, by vanishing (other processes are not looked at, whatever their state): the promised
+    rows of that process. -/
+theorem C11_scan_process (le : Bool) (w : WorldE) (hw : w.view.WF) (hn : (w.procs.map (·.1)).Nodup)
+    (kind : String) (hk : kind ∈ kinds) (p : Nat) (fds : List (Nat × TargetE))
+    (hl : w.procs.lookup (p + 1) = some (.ok fds)) (hf : FdsInspectable fds) (hd : deniedIn fds = false) :
+    ∃ rows, netConnectionsE (cfgLE le) (renderWorldE le w) kind (some (p + 1)) = .ok rows
+      ∧ Accepts (expects w.view ⟨kind, some (p + 1)⟩) rows :=
+  scan_process (cfgLE le) (cfgLE_good le) (cfgLE_tmap_good le) w hw hn kind hk p fds hl hf hd
+
+/-- **C11_scan_process_error.** Per-process form when `get_proc_inodes` raises (over ANY file
+    system): PermissionError (listing or a descriptor denied) surfaces as AccessDenied,
+    ProcessLookupError as NoSuchProcess, anything else unchanged. -/
+theorem C11_scan_process_error (le : Bool) (fs : ProcFsE) (kind : String) (hk : kind ∈ kinds) (p : Nat)
+    (l : ListRes) (hl : fs.procs.lookup (p + 1) = some l) (x : Exc)
+    (hx : getProcInodesE (p + 1) l = .error x) :
+    netConnectionsE (cfgLE le) fs kind (some (p + 1)) =
+      match x with
+      | .permissionError => .error .accessDenied
+      | .processLookup => .error .noSuchProcess
+      | x => .error x := by
+  have hin : ¬ kind ∉ (cfgLE le).connKinds := fun h => h ((C11_kind_keys kind).1.mpr hk)
+  simp only [netConnectionsE, hin, if_false, retrieveE, hl, hx]
+  cases x <;> rfl
+
+/-- a denied listing (EACCES / EPERM) gives AccessDenied, ESRCH gives NoSuchProcess -/
+theorem C11_scan_process_denied (le : Bool) (fs : ProcFsE) (kind : String) (hk : kind ∈ kinds) (p : Nat)
+    (e : Errno) (hl : fs.procs.lookup (p + 1) = some (.error e)) :
+    (errDenied e = true → netConnectionsE (cfgLE le) fs kind (some (p + 1)) = .error .accessDenied)
+    ∧ (e = .esrch → netConnectionsE (cfgLE le) fs kind (some (p + 1)) = .error .noSuchProcess) := by
+  constructor
+  · intro hd
+    have hx : getProcInodesE (p + 1) (.error e) = .error .permissionError := by
+      cases e <;> simp [errDenied] at hd <;> rfl
+    rw [C11_scan_process_error le fs kind hk p _ hl _ hx]
+  · intro he; subst he
+    rw [C11_scan_process_error le fs kind hk p _ hl .processLookup rfl]
+
+/-- the statement without the restriction to "cannot be inspected" errnos -/
+def ScanNeverFailsFull (c : Cfg) : Prop :=
+  ∀ (le : Bool) (w : WorldE), w.view.WF → ∀ kind ∈ kinds,
+    ∃ rows, netConnectionsE c (renderWorldE le w) kind none = .ok rows
+
+/-- one process whose descriptor 3 cannot be read: EIO -/
+def worldEIO : WorldE := { socks := [], procs := [(10, .ok [(3, .fail (.other 5))])], v6 := true }
+
+/-- **C11_scan_fatal_errno_propagates.** Any other errno (EIO, ENOMEM, EMFILE, ELOOP …) of a
+    `readlink` is re-raised by `get_proc_inodes`, is not caught by `get_all_inodes`, and fails the
+    system-wide call with that OSError. -/
+theorem C11_scan_fatal_errno_propagates (le : Bool) (kind : String) (hk : kind ∈ kinds) :
+    netConnectionsE (cfgLE le) (renderWorldE le worldEIO) kind none = .error (.osError 5) := by
+  have hin : ¬ kind ∉ (cfgLE le).connKinds := fun h => h ((C11_kind_keys kind).1.mpr hk)
+  have h : getAllInodesE (cfgLE le) (renderWorldE le worldEIO).procs = .error (.osError 5) := rfl
+  simp only [netConnectionsE, hin, if_false, retrieveE, h]
+
+theorem C11_scan_never_fails_Full_false (le : Bool) : ¬ ScanNeverFailsFull (cfgLE le) := by
+  intro h
+  have hw : worldEIO.view.WF := by
+    refine ⟨(by intro s hs; cases hs), ?_, (by intro _ s hs; cases hs)⟩
+    intro p hp fds hfd e he
+    simp only [worldEIO, WorldE.view, List.map_cons, List.map_nil, List.mem_cons, List.not_mem_nil, or_false] at hp
+    subst hp
+    simp [viewProc, deniedIn, errDenied] at hfd
+    subst hfd
+    simp [TargetE.view] at he
+    subst he
+    trivial
+  obtain ⟨rows, hr⟩ := h le worldEIO hw "all" (by decide)
+  rw [C11_scan_fatal_errno_propagates le "all" (by decide)] at hr
+  cases hr
+
+/-! ## Multiplicity -/
+
+/-- **C11_rows_count.** The NUMBER of rows: when no two requested sockets can yield the same row
+    (`Distinct`: the sockets differ in class, an address, a port or the state, or in their holders),
+    the system-wide form returns exactly one row per requested socket — one per holder for UNIX
+    sockets. Nothing is assumed about inode numbers: any number of sockets may share inode 0
+    (`World.WF` does not constrain inodes), each of them is a row of its own. -/
+theorem C11_rows_count (le : Bool) (w : World) (hw : w.WF) (kind : String) (hk : kind ∈ kinds)
+    (hd : Distinct (expects w ⟨kind, none⟩)) :
+    ∃ rows, netConnections (cfgLE le) (renderWorld le w) kind none = .ok rows
+      ∧ rows.length = ((expects w ⟨kind, none⟩).map Expect.count).sum := by
+  obtain ⟨rows, h1, h2⟩ := C11_rows_exact le w hw kind hk
+  exact ⟨rows, h1, Accepts.length_eq h2 hd⟩
+
+/-- the same for the per-process form -/
+theorem C11_rows_count_process (le : Bool) (w : World) (hw : w.WF) (hn : (w.procs.map (·.1)).Nodup)
+    (kind : String) (hk : kind ∈ kinds) (p : Nat) (fds : List (Nat × Target))
+    (hl : w.procs.lookup (p + 1) = some (some fds)) (hd : Distinct (expects w ⟨kind, some (p + 1)⟩)) :
+    ∃ rows, netConnections (cfgLE le) (renderWorld le w) kind (some (p + 1)) = .ok rows
+      ∧ rows.length = ((expects w ⟨kind, some (p + 1)⟩).map Expect.count).sum := by
+  obtain ⟨rows, h1, h2⟩ := C11_rows_exact_process le w hw hn kind hk p fds hl
+  exact ⟨rows, h1, Accepts.length_eq h2 hd⟩
+
+/-- …and with failing descriptors / processes -/
+theorem C11_rows_count_scan (le : Bool) (w : WorldE) (hw : w.view.WF) (hi : w.Inspectable)
+    (kind : String) (hk : kind ∈ kinds) (hd : Distinct (expects w.view ⟨kind, none⟩)) :
+    ∃ rows, netConnectionsE (cfgLE le) (renderWorldE le w) kind none = .ok rows
+      ∧ rows.length = ((expects w.view ⟨kind, none⟩).map Expect.count).sum := by
+  obtain ⟨rows, h1, h2⟩ := C11_scan_never_fails le w hw hi kind hk
+  exact ⟨rows, h1, Accepts.length_eq h2 hd⟩
+
+/-- a TIME_WAIT connection to local port 8080 from remote port `rport`: the kernel shows inode 0 -/
+def sockTW (rport : Nat) : Sock :=
+  { fam := .inet4, typ := 1, lip := [127, 0, 0, 1], lport := 8080, rip := [127, 0, 0, 1], rport := rport,
+    state := 6, path := none, inode := 0, txq := 0, rxq := 0, uid := 0, refcnt := 2, flags := 0 }
+
+/-- a held listening socket and three TIME_WAIT sockets, all three printed with inode 0 -/
+def worldTW : World :=
+  { socks := [{ fam := .inet4, typ := 1, lip := [127, 0, 0, 1], lport := 8080, rip := [0, 0, 0, 0], rport := 0,
+                state := 10, path := none, inode := 3001, txq := 0, rxq := 0, uid := 0, refcnt := 2, flags := 0 },
+              sockTW 40000, sockTW 40001, sockTW 40002],
+    procs := [(100, some [(3, .sock 3001)])], v6 := true }
+
+theorem worldTW_wf : worldTW.WF := by
+  refine ⟨?_, ?_, (by intro h; cases h)⟩
+  · intro s hs
+    simp only [worldTW, List.mem_cons, List.not_mem_nil, or_false] at hs
+    rcases hs with rfl | rfl | rfl | rfl <;> simp [Sock.WF, sockTW]
+  · intro p hp fds hfd e he
+    simp only [worldTW, List.mem_cons, List.not_mem_nil, or_false] at hp
+    subst hp
+    simp at hfd; subst hfd
+    simp at he; subst he
+    trivial
+
+/-- **C11_rows_count_inode0.** The witness of seeded change C11-1 as a theorem: four rows, one for
+    the listener and one for EACH of the three sockets that share inode 0. -/
+theorem C11_rows_count_inode0 (le : Bool) :
+    ∃ rows, netConnections (cfgLE le) (renderWorld le worldTW) "tcp4" none = .ok rows ∧ rows.length = 4 := by
+  have hd : Distinct (expects worldTW ⟨"tcp4", none⟩) := by
+    constructor <;> decide
+  obtain ⟨rows, h1, h2⟩ := C11_rows_count le worldTW worldTW_wf "tcp4" (by decide) hd
+  refine ⟨rows, h1, ?_⟩
+  rw [h2]
+  decide
+
+/-! ## Carriage returns in UNIX names -/
+
+/-- **C11_unix_name_with_cr.** `open_text()` reads with `newline="\n"`: a `\r` is an ordinary
+    character. Any name without `\n` — with any number of `\r`, anywhere — comes back exactly. -/
+theorem C11_unix_name_with_cr (le : Bool) (name : Bytes) (h10 : 10 ∉ name) (inode : Nat) :
+    processUnixLine (cfgLE le) [] none (unixLine { sockL11 with path := some name, inode := inode })
+      = .ok [⟨-1, 1, 1, .path name, .path [], "NONE", none⟩] := by
+  have hwf : ({ sockL11 with path := some name, inode := inode } : Sock).WF := by
+    simp only [Sock.WF, sockL11]
+    refine ⟨by decide, ?_⟩
+    intro p hp
+    cases hp
+    exact h10
+  rw [C11_unix_line le _ rfl hwf [] none]
+  simp [ownerPairs, filteredOut, rowFor, baseRow, sockL11, Fam.num]
+
+example : (13 : Nat) ∈ lit "/tmp/a\rb" ∧ (10 : Nat) ∉ lit "/tmp/a\rb" := by decide
 
 /-! ## The hypotheses are satisfiable -/
 
